@@ -231,7 +231,7 @@ def miri_violations(pid, ub):
     for u in ub:
         m = re.search(r"error: Undefined Behavior: ([^\n]*)", u["stderr_tail"])
         head = (m.group(1) if m else "undefined behaviour")[:120]
-        frames = re.findall(r"at (/repo/[^\s:]+)", u["stderr_tail"])
+        frames = re.findall(r"at (" + re.escape(runner.REPO_PREFIX) + r"[^\s:]+)", u["stderr_tail"])
         where = os.path.basename(frames[0]) if frames else "?"
         kind = re.sub(r"[^A-Za-z ]", "", head)[:50].strip().replace(" ", "-")
         out.append({"rule": "miri-ub", "signature": f"{pid}/miri-ub/{where}:{kind}",
